@@ -62,5 +62,9 @@ CLAIMS["C13"] = {
     "text": "Bounded symbolic exploration of the real (*order).run select loop: at every select the solver-driven scheduler picks among ready channels and pending goroutine tasks, so chain events (6 kinds), completion or failure of every asynchronous step, the bid timeout and shutdown arrive at every point of the pipeline, including after the loop has exited; obligations on the collaborator call log: at most one bid, never above the maximum price, only after a successful reservation, and when the order ends without a won lease every reservation is released and a close-bid is submitted for a placed bid; the function returns.",
     "note": LOOP_NOTE + " Depth: 7/8 selects quick, 9/10 thorough, <=2 events.",
 }
+CLAIMS["C14"] = {
+    "text": "Bounded symbolic exploration of the real (*deploymentManager).run loop (with startDeploy/startTeardown/do/doDeploy/doTeardown): manifest updates, the lease-closed request, hostname-reservation results, deploy/teardown completions or failures and provider shutdown arrive in every scheduler-chosen order; obligations on the cluster-client call log: never two operations in flight, no deploy starts after teardown was requested, teardown only after the last deploy finished, a closed lease is torn down and its hostnames released, and when the manager goes idle without close or failure the last deploy used the most recently received manifest.",
+    "note": LOOP_NOTE + " Depth 5 selects quick, 6 and 8 thorough; goroutine tasks complete in spawn order. The cluster service's release of the reservation on manager completion is not covered.",
+}
 NOT_APPLICABLE = {}
 NOTES = "Work in progress: checks are added property by property; see DESIGN.md §9 for deviations from the plan."
